@@ -2,7 +2,7 @@
 # Run once after a fresh restore (offline): builds the generator, the overlay, the
 # instrumented harness and the plain knut binary into /verif/.cache.
 set -euo pipefail
-cd /verif
+cd "$(dirname "${BASH_SOURCE[0]}")"
 mkdir -p .cache evidence replays
 KMC_FORCE=1 ./build.sh race
 .cache/bin/kmc list >/dev/null
